@@ -24,50 +24,31 @@ func runC15conc(seed int64, nmain, nbackup, workers int) string {
 		backups = append(backups, host.NewWithType(fmt.Sprintf("10.10.%d.%d:80", i/250, i%250), host.TypeBackup))
 	}
 	set := host.NewSet(append(append([]*host.Host{}, mains...), backups...)...)
-	// the share of worker w: mains with index = w mod workers
-	removeAllMains := r.chance(1, 2)
-	expect := map[string]bool{}
-	plan := make([][]func(), workers)
-	for w := 0; w < workers; w++ {
-		var mine []*host.Host
-		for i := w; i < nmain; i += workers {
-			mine = append(mine, mains[i])
+	expect := map[string]bool{} // addresses of the healthy main members
+	for _, h := range mains {
+		expect[h.Addr] = true
+	}
+	check := func(when string) string {
+		var want []string
+		for a := range expect {
+			want = append(want, a)
 		}
-		kind := r.intn(4)
-		if removeAllMains {
-			kind = 0
-		}
-		switch kind {
-		case 0: // remove the whole share, in one call or one by one
-			if r.chance(1, 2) {
-				m := mine
-				plan[w] = append(plan[w], func() { set.Remove(m...) })
-			} else {
-				for _, h := range mine {
-					h := h
-					plan[w] = append(plan[w], func() { set.Remove(h) })
-				}
-			}
-		case 1: // mark the share unhealthy, then half of it healthy again
-			for i, h := range mine {
-				h, i := h, i
-				plan[w] = append(plan[w], func() { set.MarkHostUnhealthy(h) })
-				if i%2 == 0 {
-					plan[w] = append(plan[w], func() { set.MarkHostHealthy(h) })
-					expect[h.Addr] = true
-				}
-			}
-		case 2: // remove the share and add it again (new objects of the same addresses)
-			for _, h := range mine {
-				h := h
-				plan[w] = append(plan[w], func() { set.Remove(h) }, func() { set.Add(host.NewWithType(h.Addr, host.TypeMain)) })
-				expect[h.Addr] = true
-			}
-		default: // nothing: the share stays
-			for _, h := range mine {
-				expect[h.Addr] = true
+		if len(want) == 0 {
+			for _, b := range backups {
+				want = append(want, b.Addr)
 			}
 		}
+		sort.Strings(want)
+		got := set.Healthy()
+		if len(got) != len(want) {
+			return fmt.Sprintf("%s: %d usable hosts, %d healthy members of the preferred tier", when, len(got), len(want))
+		}
+		for i := range got {
+			if got[i].Addr != want[i] {
+				return fmt.Sprintf("%s: position %d holds %s, expected %s", when, i, got[i].Addr, want[i])
+			}
+		}
+		return ""
 	}
 	stop := make(chan struct{})
 	bad := ""
@@ -90,44 +71,67 @@ func runC15conc(seed int64, nmain, nbackup, workers int) string {
 			}
 		}
 	}()
-	var wg sync.WaitGroup
-	for w := 0; w < workers; w++ {
-		wg.Add(1)
-		go func(w int) {
-			defer wg.Done()
-			for _, f := range plan[w] {
-				f()
+	defer func() { close(stop); rw.Wait() }()
+	// rounds: every worker makes one update of a host of its own at the same moment (the updates commute); afterwards the
+	// snapshot must be the expected one whatever order they were applied and published in
+	next := 0
+	cur := append([]*host.Host{}, mains...) // the current object of each main address
+	for round := 0; round < 40 && next+workers <= nmain; round++ {
+		var ops []func()
+		for w := 0; w < workers; w++ {
+			i := next
+			next++
+			h := cur[i]
+			switch r.intn(4) {
+			case 0:
+				ops = append(ops, func() { set.Remove(h) })
+				delete(expect, h.Addr)
+			case 1:
+				ops = append(ops, func() { set.MarkHostUnhealthy(h) })
+				delete(expect, h.Addr)
+			case 2:
+				nh := host.NewWithType(h.Addr, host.TypeMain)
+				cur[i] = nh
+				ops = append(ops, func() { set.Remove(h); set.Add(nh) })
+			default:
+				ops = append(ops, func() { set.MarkHostUnhealthy(h); set.MarkHostHealthy(h) })
 			}
-		}(w)
+		}
+		start := make(chan struct{})
+		var wg sync.WaitGroup
+		for _, f := range ops {
+			wg.Add(1)
+			go func(f func()) { defer wg.Done(); <-start; f() }(f)
+		}
+		close(start)
+		wg.Wait()
+		if bad != "" {
+			return bad
+		}
+		if msg := check(fmt.Sprintf("after round %d", round)); msg != "" {
+			return "snapshot differs " + msg
+		}
 	}
-	wg.Wait()
-	close(stop)
-	rw.Wait()
+	// finally the remaining mains go, all at once and one by one at the same time: the backups take over
+	rest := cur[next:]
+	if len(rest) > 1 && r.chance(1, 2) {
+		one := rest[0]
+		start := make(chan struct{})
+		var wg sync.WaitGroup
+		wg.Add(2)
+		go func() { defer wg.Done(); <-start; set.Remove(one) }()
+		go func() { defer wg.Done(); <-start; set.Remove(rest[1:]...) }()
+		close(start)
+		wg.Wait()
+		for _, h := range rest {
+			delete(expect, h.Addr)
+		}
+		if msg := check("after removing the remaining main hosts"); msg != "" {
+			return "snapshot differs " + msg
+		}
+	}
 	if bad != "" {
 		return bad
-	}
-	// the preferred tier: mains if any main is healthy, else the backups
-	var want []string
-	for a := range expect {
-		want = append(want, a)
-	}
-	if len(want) == 0 {
-		for _, b := range backups {
-			want = append(want, b.Addr)
-		}
-	}
-	sort.Strings(want)
-	var got []string
-	for _, h := range set.Healthy() {
-		got = append(got, h.Addr)
-	}
-	if len(got) != len(want) {
-		return fmt.Sprintf("final snapshot differs: %d usable hosts, %d healthy members of the preferred tier", len(got), len(want))
-	}
-	for i := range got {
-		if got[i] != want[i] {
-			return fmt.Sprintf("final snapshot differs at position %d: %s, expected %s", i, got[i], want[i])
-		}
 	}
 	return "ok"
 }
